@@ -452,7 +452,9 @@ class PossibleFragmentSpreadsChecker(ValidationVisitor):
     def enter_fragment_spread(self, node):
         name = node.name.value
         frag_type = self._fragment_types.get(name, None)
-        parent_type = self.type_info.type
+        # Named type of the enclosing selection set (the field's own type can
+        # be wrapped in list / non-null).
+        parent_type = self.type_info.parent_type
 
         if (
             isinstance(frag_type, GraphQLCompositeType)
